@@ -398,9 +398,9 @@ def check_stosoo(ctx):
 
 def run(ctx):
     model = ctx.model
-    check_soo(ctx)
-    check_doo(ctx)
-    check_stosoo(ctx)
+    ctx.attempt("R08-EXPAND", model.cls("SOO").file, "SOO.pull", "sweep", check_soo, ctx)
+    ctx.attempt("R08-EXPAND", model.cls("DOO").file, "DOO.pull", "sweep", check_doo, ctx)
+    ctx.attempt("R08-EXPAND", model.cls("StoSOO").file, "StoSOO.pull", "sweep", check_stosoo, ctx)
     from . import c03, c04
     tmp = Ctx(ctx.prop, ctx.tier, ctx.seed, model)
     eff = E.Effects(model)
